@@ -168,6 +168,7 @@ func runCheck(repo, prop, tier string, opts SolveOpts) int {
 	var specErrs []string
 	byKind := map[string]int{}
 	loops := 0
+	folded := 0
 	for _, r := range results {
 		if r == nil {
 			continue
@@ -192,6 +193,7 @@ func runCheck(repo, prop, tier string, opts SolveOpts) int {
 			unmodelled = append(unmodelled, r.Name+": "+u)
 		}
 		loops += r.VC.loopsSeen
+		folded += r.VC.foldedCases
 		for _, o := range r.Obls {
 			total++
 			byKind[o.Kind]++
@@ -299,14 +301,15 @@ func runCheck(repo, prop, tier string, opts SolveOpts) int {
 	ev := Evidence{PropertyID: prop, Tier: tier, Seed: seed, Level: "proof", Assumptions: assumptions, WallS: time.Since(t0).Seconds(), Violations: violations,
 		Coverage: map[string]interface{}{
 			"obligations": total, "discharged": discharged,
-			"checker_cmd":                       fmt.Sprintf("bin/govc check --property %s --tier %s", prop, tier),
-			"trusted_base":                      trusted,
-			"samples":                           samples,
-			"functions_under_contract":          funcs,
-			"obligations_by_kind":               byKind,
-			"discharged_by_solver":              bySolver,
-			"solver_time_ms":                    solverMs,
-			"loops_cut_with_invariants":         loops,
+			"checker_cmd":               fmt.Sprintf("bin/govc check --property %s --tier %s", prop, tier),
+			"trusted_base":              trusted,
+			"samples":                   samples,
+			"functions_under_contract":  funcs,
+			"obligations_by_kind":       byKind,
+			"discharged_by_solver":      bySolver,
+			"solver_time_ms":            solverMs,
+			"loops_cut_with_invariants": loops,
+			"lemma_cases_decided_by_constant_folding_in_the_generator": folded,
 			"callees_with_contract":             keysOf(contracted),
 			"callees_inlined":                   keysOf(inlined),
 			"callees_without_contract_havocked": keysOf(uncontracted),
